@@ -202,8 +202,9 @@ class EllipsePixelRegion(PixelRegion):
         # in float64: an unsigned integer origin would wrap around
         xy = (np.subtract(self.center.x, origin[0], dtype=float),
               np.subtract(self.center.y, origin[1], dtype=float))
-        width = self.width
-        height = self.height
+        # float: matplotlib halves and negates the sizes in their own dtype
+        width = float(self.width)
+        height = float(self.height)
         # matplotlib expects rotation in degrees (anti-clockwise)
         angle = self.angle.to('deg').value
 
